@@ -320,6 +320,11 @@ ORDER_TEXTS = [
     ('SELECT %s AS a, b FROM (SELECT %s AS b, i FROM #t WHERE %s < 10) WHERE i IN (SELECT i FROM #t WHERE %s > 0) ORDER BY i + %s', (1, 2, 3, 4, 5)),
     ('SELECT %s AS a FROM #t WHERE i >= %s GROUP BY i HAVING count(*) >= %s ORDER BY %s', (7, 0, 1, 9)),
     ('SELECT %s AS a, %s AS b FROM (SELECT i FROM (SELECT i FROM #t WHERE %s = 3) WHERE %s = 4) WHERE %s = 5', (1, 2, 3, 4, 5)),
+    # a key expression equal to a target up to the VALUE of a placeholder is another expression
+    ('SELECT i, i * %s AS v FROM #t ORDER BY i * %s, i', (1, -1)),
+    ('SELECT i, j FROM #t ORDER BY i * %s DESC, j * %s', (0, 1)),
+    ('SELECT substr(s, 0, %s) AS p, count(*) AS n FROM #t GROUP BY substr(s, 0, %s) ORDER BY 1', (2, 1)),
+    ('SELECT i + %s AS x, sum(j) AS t FROM #t GROUP BY i + %s ORDER BY 1', (1, 2)),
 ]
 
 
